@@ -27,6 +27,7 @@ def run(ctx, repo):
     RS.r_one_object_per_call(ctx, repo)
     RX.r_emitter_doc_reset(ctx, repo)
     RX.r_no_process_state(ctx, repo)
+    RX.r_no_memo(ctx, repo)
 
 if __name__ == '__main__':
     sys.exit(report.main('C11', 'other', run))
